@@ -297,7 +297,28 @@ fn alias_and_chains<C: Codec>(case: &Value, out: &mut Out, p: &Polynomial<C::T>,
     poly_op::<C>(case, out, "sumsq", "chain", p, Some(q), &none, &|a, b| &(a * a) + &(b.unwrap() * b.unwrap()));
 }
 
+/// calls the crate refuses (panic / Err), under guarded(), in every element type; used by the "poison" cases
+fn refuse(kind: &str) {
+    use ohsl::Cmplx;
+    let _ = guarded(|| match kind {
+        "evalempty" => { let _ = Polynomial::<f64>::new(vec![]).eval(2.0); }
+        "derivempty" => { let _ = Polynomial::<Rat>::new(vec![]).derivative(); }
+        "trimempty" => { let mut p = Polynomial::<Cmplx>::new(vec![]); p.trim(); }
+        "index" => { let p = Polynomial::<Rat>::new(vec![Rat::int(1)]); let _ = p[3]; }
+        "indexmut" => { let mut p = Polynomial::<f64>::new(vec![1.0]); p[2] = 5.0; }
+        "deg0roots" => { let _ = Polynomial::<f64>::new(vec![7.0]).roots(false); }
+        "derivat" => { let _ = Polynomial::<Cmplx>::new(vec![Cmplx::new(1.0, 0.0)]).derivative_at(Cmplx::new(1.0, 0.0), 3); }
+        _ => { let _ = Polynomial::<Rat>::new(vec![Rat::int(1), Rat::int(2)]).polydiv(&Polynomial::<Rat>::new(vec![Rat::int(0), Rat::int(0)])); }
+    });
+}
+
 pub fn exec(case: &Value, out: &mut Out) {
+    if let Some(k) = case.get("poison").and_then(|v| v.as_str()) {
+        // a refused call, IMMEDIATELY followed on this thread by the ordinary battery - and once more
+        refuse(k);
+        let mut c = case.clone(); c.as_object_mut().unwrap().remove("poison");
+        exec(&c, out); exec(&c, out); return;
+    }
     match gets(case, "ty") { "rat" => run::<RatI>(case, out), "f64" => run::<F64I>(case, out), "cx" => run::<CxI>(case, out), "ratq" => run::<RatQ>(case, out),
         t => { eprintln!("TOOL-ERROR unknown type {}", t); std::process::exit(2) } }
 }
@@ -415,6 +436,37 @@ pub fn gen(tier: &str, seed: u64, out: &mut Out) {
         if cxs { c["pi"] = json!(coeffs(&mut rng, lp, 9, false)); c["qi"] = json!(coeffs(&mut rng, lq, 9, false)); c["xsi"] = json!([xi0]); c["ssi"] = json!([si0]); }
         push(out, c);
     } } } }
+    // (a6) a refused call (panic / Err) immediately followed by the ordinary battery on the same thread, twice
+    for kind in ["evalempty", "derivempty", "trimempty", "index", "indexmut", "deg0roots", "derivat", "divzero"] { for ty in tys { for len in [2usize, 5, 9] {
+        let mut c = json!({"ty": ty, "poison": kind, "p": coeffs(&mut rng, len, 9, true), "q": coeffs(&mut rng, (len + 3) % 8 + 1, 9, true), "form": if len % 2 == 0 { "ref" } else { "own" }, "bat": "full",
+                           "xs": [2, -1], "ss": [3], "beyond": 0});
+        if ty == "cx" { c["pi"] = json!(coeffs(&mut rng, len, 9, false)); c["qi"] = json!(coeffs(&mut rng, (len + 3) % 8 + 1, 9, false)); c["xsi"] = json!([1, 0]); c["ssi"] = json!([-1]); }
+        push(out, c);
+    } } }
+    // (a7) sparse operands (deterministic): both factors of size 8..9 (and a few smaller) with exactly two non-zero coefficients, every position of
+    //      the pair in p, several in q, equal exponent gaps (cross terms meet at the same power) and unequal ones; monomials; three terms
+    { let mut k = 0usize;
+      for (lp, lq) in [(8usize, 8usize), (8, 9), (9, 8), (9, 9), (5, 9), (9, 4)] { for g in 1..lp.min(lq) { for i in 0..lp - g {
+          let qs: Vec<usize> = { let m = lq - g; let mut v = vec![0, m / 2, m - 1]; v.dedup(); v };
+          for i2 in qs { for gq in [g, if g + 1 < lq - i2 { g + 1 } else { g }] {
+              if i2 + gq >= lq { continue; }
+              k += 1; let ty = tys[k % 3];
+              let nzv = |rng: &mut StdRng| -> i64 { [1i64, -1, 2, -3, 5][rng.gen_range(0..5)] };
+              let mut pv = vec![0i64; lp]; pv[i] = nzv(&mut rng); pv[i + g] = nzv(&mut rng);
+              let mut qv = vec![0i64; lq]; qv[i2] = nzv(&mut rng); qv[i2 + gq] = nzv(&mut rng);
+              if k % 7 == 0 && i + g + 1 < lp { pv[i + g + 1] = nzv(&mut rng); }              // a third term now and then
+              let (x0, xi0) = ([2i64, -1, 1][k % 3], [0i64, 1, -1][k % 3]);
+              let mut c = json!({"ty": ty, "p": pv, "q": qv, "form": if k % 2 == 0 { "ref" } else { "own" }, "bat": "pair", "xs": [x0], "ss": [], "beyond": 0});
+              if ty == "cx" { let mut pi = vec![0i64; lp]; pi[i] = nzv(&mut rng); let mut qi = vec![0i64; lq]; qi[i2 + gq] = nzv(&mut rng); c["pi"] = json!(pi); c["qi"] = json!(qi); c["xsi"] = json!([xi0]); c["ssi"] = json!([]); }
+              push(out, c);
+          } }
+      } } }
+      // monomials times sparse / dense
+      for lp in [4usize, 8, 9] { for i in 0..lp { k += 1; let ty = tys[k % 3]; let mut pv = vec![0i64; lp]; pv[i] = [1i64, -2, 3][k % 3];
+          let mut c = json!({"ty": ty, "p": pv, "q": coeffs(&mut rng, 9, 9, true), "form": "ref", "bat": "pair", "xs": [2], "ss": [], "beyond": 0});
+          if ty == "cx" { c["pi"] = json!(vec![0i64; lp]); c["qi"] = json!(coeffs(&mut rng, 9, 9, false)); c["xsi"] = json!([1]); c["ssi"] = json!([]); }
+          push(out, c); } }
+    }
     // (b) rational coefficients and scalars (Polynomial<Rat>), degree <= 4
     for _ in 0..(if quick { 40 } else { 600 }) {
         let (lp, lq) = (rng.gen_range(0..=5usize), rng.gen_range(0..=5usize));
